@@ -131,6 +131,7 @@ type lexer struct {
 	done     chan struct{} // Closed when nobody will read tokens any more
 	stopOnce sync.Once
 	exited   chan struct{} // Closed when tokenize has returned
+	afterDot bool          // The last token (other than whitespace) was the "." punctuation
 }
 
 // stop tells the lexer that no more tokens will be read, so that tokenize
@@ -226,6 +227,9 @@ func (l *lexer) emit(t tokenType) {
 	}
 
 	tok := token{val, t, Pos{l.line, l.offset}}
+	if t != tokenWhitespace {
+		l.afterDot = t == tokenPunctuation && val == "."
+	}
 
 	if c := strings.Count(val, "\n"); c > 0 {
 		l.line += c
@@ -341,6 +345,11 @@ func lexExpression(l *lexer) stateFn {
 // which require more than just a check of the next character.
 func (l *lexer) tryLexOperator() bool {
 	op := operatorMatcher.FindString(l.input[l.pos:])
+	if l.afterDot && op != "" && isName(op[:1]) {
+		// After the dot of an attribute access a word is a name, even one
+		// that is also an operator: {{ stock.in }}, {{ team.matches }}.
+		return false
+	}
 	// An operator that ends in a letter (such as "in" or "not in") has to end
 	// at a word boundary: "include", "is_currently_on" or "not index" do not
 	// contain one. When a multi-word operator fails the test, its first
